@@ -150,7 +150,7 @@ CHECKS["C15"] = {
     "level": "exploration",
     "technique": "model-based stateful property testing (rapid): checkstate / restore answers compared with a reference model of everything the mint did",
     "rule": ("rapid state machine (fund, swap, melt with all LN outcomes, delayed resolution, internal settlement, rotation, restart) with, at any point, checkstate queries of 1..40 entries mixing known Ys in every state, unknown-but-valid points, repeats and malformed strings, and restore queries of 1..14 entries mixing signed B_ (incl. with wrong amount/id fields in the request), never-signed points, repeats and malformed strings; "
-             "oracle: i-th answer is for the i-th Y with the model state (unknown/malformed => UNSPENT) and the witness the spend carried; restore returns exactly the requested B_ the mint signed, in request order, with the amount, id, C_ and (e,s) first returned; identical after restart. "
+             "oracle: i-th answer is for the i-th Y with the model state (unknown/malformed => UNSPENT) and the witness the spend carried; restore returns exactly the requested B_ the mint signed, in request order, with the amount, id, C_ and (e,s) first returned; identical after restart; one history in three sends these queries through the HTTP handler instead of the Go API. "
              "non-trivial: history with a checkstate query covering >=2 distinct states or a restore query with >=1 signed and >=1 unsigned entry; distinct = hash of the trace. "
              "Fault unit: one melt (LN outcome success / failed / pending then success / pending then failed / pay call errs with the payment made / not made) whose k-th storage call (k = 1..9, optionally every later call too) - of the melt request or of the poll that resolves the pending payment - returns an error; afterwards, on a working storage, two polls and a state query of the inputs; "
              "oracle relating the three reports about one melt: a proof reported PENDING is locked by a melt the mint itself reports in flight, the inputs of a quote reported PAID are SPENT, the inputs of an UNPAID quote whose payment was never made are not SPENT, all inputs of one melt are in one state; non-trivial = the fault fired; distinct = (plan, phase, failing call, k, from, fee)."),
